@@ -32,6 +32,18 @@ PROPS = {
         "suites": [("wire", 120, 900), ("apply", 300, 3000), ("proc", 60, 600)],
         "title": "decoded messages are grammar-valid; processing them on any well-formed node never aborts and keeps the invariant",
     },
+    "C10": {
+        "suites": [("fd", 200, 2000), ("proc", 80, 800)],
+        "title": "silent longer than threshold*max(max_interval,initial_interval) => not alive, for every window content; fewer than two reports => not alive; evaluation puts such a member in the dead set (exact arithmetic; f64 partial)",
+    },
+    "C11": {
+        "suites": [("fd", 200, 2000), ("proc", 80, 800)],
+        "title": "stale/equal/lower heartbeats leave the whole node unchanged; first value is not evidence; alive needs an interval; steady heartbeats stay alive",
+    },
+    "C12": {
+        "suites": [("fd", 200, 2000), ("proc", 120, 1200)],
+        "title": "disjoint live/dead, self never classified nor removed, every other known member in exactly one set after an evaluation; quarantine of scheduled members in digests and deltas; removal at grace; no revival by stale heartbeats",
+    },
     "C13": {
         "suites": [("proc", 150, 1500), ("fd", 150, 1500)],
         "title": "recorded membership = evaluated live members with current versions and verdicts; channel value = those with a true verdict; publish iff changed",
@@ -40,9 +52,25 @@ PROPS = {
         "suites": [("proc", 120, 1200, NO_MB), ("delta", 40, 300), ("apply", 200, 2000)],
         "title": "agreement of sender's reset decision and receiver's admission for all copies and truncation points; tie to the MTU loop",
     },
+    "C15": {
+        "suites": [("listen", 200, 2000), ("kv", 100, 600)],
+        "title": "dispatch = exactly the subscriptions whose prefix is a prefix of the key, for every sorted map of valid UTF-8 prefixes and every key; events iff accepted non-deleted insert",
+    },
     "C16": {
         "suites": [("proc", 100, 1000), ("wire", 60, 400)],
         "title": "foreign SYN answered by BadCluster only, state untouched but the own heartbeat; rejection terminal",
+    },
+    "C17": {
+        "suites": [("select", 60, 600)],
+        "title": "selection bounds, forced seed when isolated, forced dead peer when dead outnumber live, for every random-generator answer",
+    },
+    "C18": {
+        "suites": [("catchup", 250, 2500)],
+        "title": "catch-up never aborts, leaves the copy unchanged or replaces its key set with a strictly larger frontier, never touches detector sets / watch / removed members",
+    },
+    "C19": {
+        "suites": [("loop", 120, 1200), ("udp", 3, 12)],
+        "title": "loop survives every benign event sequence with arbitrary send failures, stops with the right report on fatal error / panic / shutdown, lock discipline of every micro-trace (decision logic; runtime partial)",
     },
     "C20": {
         "suites": [("proc", 150, 1500), ("apply", 300, 3000)],
